@@ -40,7 +40,10 @@ OPS_QUICK = ['str', 'external_references', 'iterate', 'is_fully_typed', 'eq_hash
              'but_unchanged', 'but_lit_num', 'but_lit_str', 'but_lit_bool', 'but_metadata', 'simplify', 'split_and',
              'refactor_reference', 'replace_this_with_var', 'replace_var_with_this', 'replace_var_with_literal',
              'negate', 'join_self', 'canonical_form', 'type_check_references', 'publish_event',
-             'contains_reference', 'contains_self_reference', 'get_conjuncts', 'get_disjuncts', 'sanity_check', 'aliases_events', 'repr']
+             'contains_reference', 'contains_self_reference', 'get_conjuncts', 'get_disjuncts', 'sanity_check', 'aliases_events', 'repr',
+             'parse_rejected_syntax', 'parse_rejected_type', 'parse_rejected_sanity', 'parse_accepted']
+PARSE_TEXTS = {'parse_rejected_syntax': ('condition', 'a + * b >'), 'parse_rejected_type': ('predicate', '{ (1 + True) > 2 }'),
+               'parse_rejected_sanity': ('property', 'globally: a as M causes b as M'), 'parse_accepted': ('condition', 'other = 1 or len(things) > 2')}
 SELS = ['root', 'child1', 'child2', 'grandchild', 'refleaf', 'thisleaf', 'result']
 
 
@@ -117,7 +120,14 @@ def apply(op, o, root, newalias='M'):
     but = ['na']
     res = []
     try:
-        if op == 'str':
+        if op in PARSE_TEXTS:
+            # another text goes through a parser entry point in the same process (accepted, or rejected in one of three ways)
+            entry, text = PARSE_TEXTS[op]
+            po, pobj = call_parser(entry, text)
+            if (po == 'ast') != (op == 'parse_accepted'):
+                raise tlc.MachineryError('%s: %r gave %s' % (op, text, po))
+            return 'ok', [], but
+        elif op == 'str':
             str(o)
         elif op == 'eq_hash':
             _ = (o == o, hash(o))
@@ -269,7 +279,8 @@ def schedules(thorough, rep):
             out.append(json.loads(t[1]))
     # length 3 over the mutating part of the alphabet
     ops3 = ['cast_narrow', 'but_lit_num', 'but_lit_str', 'simplify', 'split_and', 'refactor_reference',
-            'replace_var_with_literal', 'replace_var_with_this', 'replace_this_with_var', 'canonical_form', 'type_check_references', 'eq_hash']
+            'replace_var_with_literal', 'replace_var_with_this', 'replace_this_with_var', 'canonical_form', 'type_check_references', 'eq_hash',
+            'parse_rejected_type']
     sels3 = ['root', 'child1', 'grandchild', 'thisleaf', 'result'] if not thorough else SELS
     res = tlc.run_model('MC_Sched', cfg_text=cfgq % (3, q(ops3 if not thorough else OPS_QUICK[4:]), q(sels3)), workers=1, timeout=3000)
     if not res['ok']:
